@@ -651,7 +651,7 @@ func cmdCheck(prop string, args []string) {
 		}
 		sigs, last, crash := replayOnce(&p, 1, false)
 		nreg++
-		if len(sigs) > 0 && sigs[0] == want {
+		if len(sigs) > 0 && sameOutcome(&p, want, sigs[0]) {
 			q := p
 			if last != nil {
 				q = *last
@@ -970,6 +970,18 @@ func finalize(ex *payload, sig string, budget time.Duration, seed int64, tier st
 		return &p
 	}
 	p.ShrunkFrom = len(p.Tape)
+	if strings.HasPrefix(rawSig, "stall/") || (strings.HasPrefix(rawSig, "panic/") && p.Violation != nil && strings.Contains(p.Violation.Message, "out of memory")) {
+		// a runaway computation ends as a watchdog stall in a long-lived child and as
+		// "out of memory" (the child's address-space limit) when replayed alone, or the other
+		// way round: what reproduces is "the run does not end normally"
+		abn, example := countAbnormal(&p, 3)
+		if abn == 3 {
+			p.ReplaysOK = "3/3 (every replay ends abnormally: " + example + "; not shrunk)"
+			return &p
+		}
+		p.ReplaysOK = fmt.Sprintf("%d/3 replay=unstable", abn)
+		return &p
+	}
 	okN := countRepro(&p, rawSig, 3)
 	if okN < 3 {
 		okN += countRepro(&p, rawSig, 2)
@@ -1020,6 +1032,47 @@ func countRepro(p *payload, sig string, n int) int {
 	return c
 }
 
+// sameOutcome: does a replay that ended with signature got reproduce the recorded raw
+// signature? Runaway computations (stalls, out of memory) reproduce as any abnormal end.
+func sameOutcome(p *payload, raw, got string) bool {
+	if got == "" {
+		return false
+	}
+	if got == raw {
+		return true
+	}
+	if strings.HasPrefix(raw, "stall/") || (strings.HasPrefix(raw, "panic/") && p.Violation != nil && strings.Contains(p.Violation.Message, "out of memory")) {
+		return strings.HasPrefix(got, "stall/") || strings.HasPrefix(got, "panic/") || strings.HasPrefix(got, "crash/")
+	}
+	return false
+}
+
+// countAbnormal replays p in n fresh processes and counts how many end in a stall or a
+// crash of the process (whatever the signature).
+func countAbnormal(p *payload, n int) (int, string) {
+	res := make([]string, n)
+	var wg sync.WaitGroup
+	for i := 0; i < n; i++ {
+		wg.Add(1)
+		go func(i int) {
+			defer wg.Done()
+			sigs, _, _ := replayOnce(p, 1, false)
+			if len(sigs) > 0 && (strings.HasPrefix(sigs[0], "stall/") || strings.HasPrefix(sigs[0], "panic/") || strings.HasPrefix(sigs[0], "crash/")) {
+				res[i] = sigs[0]
+			}
+		}(i)
+	}
+	wg.Wait()
+	c, ex := 0, ""
+	for _, r := range res {
+		if r != "" {
+			c++
+			ex = r
+		}
+	}
+	return c, ex
+}
+
 func cmdReplay(args []string) {
 	if len(args) < 1 {
 		die(2, "usage: vcheck replay <file>")
@@ -1050,7 +1103,7 @@ func cmdReplay(args []string) {
 	if len(sigs) > 0 {
 		got = sigs[0]
 	}
-	if got == raw && got != "" {
+	if sameOutcome(&p, raw, got) {
 		prop := p.Property
 		if prop == "" && p.Violation != nil {
 			prop = p.Violation.Property
